@@ -84,4 +84,15 @@ META = {
         "runs reuse one engine for all steps",
         ["multi_clique_tree", "evidence_in_several_cliques"],
     ),
+    "C03": _m(
+        "one evaluation = one simulated run: a Bayesian-network (70%) or connected Markov-network (30%) world, <=6 variables (7 thorough), built in "
+        "PRNG-chosen insertion orders under the worker's hash seed, then 2..7 MAP operations: VariableElimination.map_query with elimination_order in "
+        "{default, 4 heuristics, explicit permutation, None}, BeliefPropagation.map_query, hard and virtual evidence of positive probability, and "
+        "BayesianNetwork.predict(algo in {VE, BP}, n_jobs in {1, 2, -1}) on 1..8 rows under the SimParallel stub.  Oracle: the returned assignment "
+        "covers exactly the requested variables, uses valid state names and attains the maximum of the brute-force posterior (ties free).  "
+        "Non-trivial = at least one checked operation; distinct = distinct trace digest.",
+        "faults: relabel / insertion_permute (hash order), option_swarm, virtual_evidence_rebind, worker_batching / worker_reorder / worker_isolation "
+        "inside predict",
+        ["tie_in_posterior", "order_none", "order_explicit", "order_default"],
+    ),
 }
